@@ -760,6 +760,10 @@ def cell_level(chk, res):
         if ok:
             agree += 1
             chk.count("cell:" + ("agrees-on-deviation" if not cg.same(ci, co) and not co["outcome"].startswith("oracle-") else "agrees"))
+        elif not co["outcome"].startswith("oracle-") and not cg.same(ci, co):
+            # the implementation itself deviates here (reported by the behavioural tie with this very program);
+            # the cell-level model, fed by the scope model's compilation, is not expected to follow an unknown deviation
+            chk.count("cell:differs-where-implementation-deviates")
         else:
             chk.violation(f"tie:cell:{c.tag}", f"cell-level run-time model disagrees with the implementation ({c.tag}): model={json.dumps(cc)[:500]} impl={json.dumps(ci)[:500]}",
                           dict(c.replay(), cell_model_request=lines[0][:0] + "scope run - - - 1 3000000 " + scope_sexp(c.ds), impl=ci, model=cc), no_input=True)
